@@ -4,6 +4,10 @@ from common import *
 
 
 def main(pid, path):
+    import importlib
+    mod = importlib.import_module("props." + pid)
+    if hasattr(mod, "replay"):          # properties without a C++ harness (C20) replay on their own engine
+        return mod.replay(path)
     with open(path) as f:
         rp = json.load(f)
     if rp.get("kind") == "broken-obligation":
